@@ -21,7 +21,7 @@ SPEC_BUILTINS = ('forall', 'exists', 'implies', 'iff', 'old', 'at', 'ite', 'fora
                  'set_eq', 'set_minus', 'set_union', 'set_add', 'set_del', 'empty_set',
                  'disjoint', 'has_key', 'keys_eq', 'seq_eq', 'let', 'setof', 'dq_lo', 'dq_hi', 'dq_at',
                  'bi8', 'bu8', 'bi16', 'bu16', 'bu24', 'bi32', 'bu32', 'bi64', 'bcat', 'braw', 'bempty', 'blen', 'beq',
-                 'written', 'content', 'utf8', 'bmark', 'since')
+                 'written', 'content', 'utf8', 'bmark', 'since', 'sum_of', 'crc_of', 'summands', 'stream_front')
 
 
 class Ctx(object):
@@ -214,9 +214,10 @@ class ExprMixin(object):
     if ty.k == 'none':
       return NONE_V
     if ty.k == 'bytes':
-      ln = z3.Int(fresh_name(name + '_len'))
-      st.assume(ln >= 0)
-      return V(ty, py=[('raw', z3.Int(fresh_name(name)), ln)])
+      from .state import bytes_len_fn
+      sym = z3.Int(fresh_name(name))
+      st.assume(bytes_len_fn()(sym) >= 0)
+      return V(ty, py=[('raw', sym, bytes_len_fn()(sym))])
     if ty.k == 'int':
       v = V(ty, z3.Int(fresh_name(name)))
     elif ty.k == 'real':
@@ -265,6 +266,8 @@ class ExprMixin(object):
         if name in self.reg.classes:
           return VClass(name)
         raise Unsupported('class %s not declared in sidecar' % name)
+      if name in self.reg.classes and self.reg.classes[name].extern:
+        return VClass(name)        # e.g. a namedtuple declared as a record class in the sidecar
       # module-level constant expression
       return self.eval_const(n, mod, name)
     if mod is not None and name in mod.imports:
@@ -424,6 +427,7 @@ class ExprMixin(object):
                  z3.Exists([k], z3.And(0 <= k, k < m, idx(k) == jj)))))
       if not gen.ifs:
         st1.assume(m == n)
+        st1.assume(z3.ForAll([k], z3.Implies(z3.And(0 <= k, k < n), z3.Select(items, k) == sub(coerce(elt, elt.ty), k))))
       yield st1, res
 
   def expected_type(self, cx, node):
